@@ -167,6 +167,8 @@ def _sweeten_op(model, cname, op, data):
         return data
     if k == 'enum_lower' and isinstance(data, str):
         return data.lower()
+    if k == 'set_scalar':
+        return M.dec(op[1], None)
     raise ValueError('no plain model for sweeten op %r' % (op,))
 
 
